@@ -273,7 +273,7 @@ var intConsts = []string{"tabStopSize", "codeBlockIndentLimit", "chunkSize", "ma
 	"stateOpening", "stateOpenMatched", "stateLineConsumed", "stateDescending", "stateDescendTerminated",
 	"inlineDelimiterStar", "inlineDelimiterUnderscore", "inlineDelimiterLink", "inlineDelimiterImage",
 	"SoftBreakPreserve", "SoftBreakSpace", "SoftBreakHarden", "nodeTypeBlock", "nodeTypeInline"}
-var strConsts = []string{"blockQuotePrefix", "nullReplacementString", "safeSet", "cdataPrefix", "cdataSuffix", "htmlCommentPrefix", "htmlCommentSuffix", "processingInstructionPrefix", "processingInstructionSuffix", "hardLineBreak"}
+var strConsts = []string{"blockQuotePrefix", "nullReplacementString", "safeSet", "cdataPrefix", "cdataSuffix", "htmlCommentPrefix", "htmlCommentSuffix", "processingInstructionPrefix", "processingInstructionSuffix"}
 
 func genConsts(p, fp *pkgInfo, o *out) string {
 	var sb strings.Builder
